@@ -71,9 +71,18 @@ class ErrorEstimator:
                 gamma = elem_left.gamma_space
                 assert np.allclose(gamma(elem_left.space_interval[1]),
                                    gamma(elem_right.space_interval[0]))
-                val[i] = self.slobodeckij.seminorm_h_1_2(
-                    residual_t, elem_left.space_interval[0],
-                    elem_right.space_interval[1], gamma)
+                x_a = elem_left.space_interval[0]
+                x_b = elem_right.space_interval[1]
+                if x_b < x_a:
+                    # The patch crosses the glued boundary: integrate over
+                    # [x_a, x_b + gamma_len] and wrap the parameter around.
+                    L = self.gamma_len
+                    val[i] = self.slobodeckij.seminorm_h_1_2(
+                        lambda x_hat, _: residual_t(x_hat % L, gamma), x_a,
+                        x_b + L, lambda x_hat: gamma(x_hat % L))
+                else:
+                    val[i] = self.slobodeckij.seminorm_h_1_2(
+                        residual_t, x_a, x_b, gamma)
             else:
                 val[i] = self.slobodeckij.seminorm_h_1_2_pw(
                     residual_t, *elem_left.space_interval,
